@@ -20,6 +20,43 @@ use self::{
     sequence::{looks_like_sequence, parse_sequence},
 };
 
+/// How deep the parser follows nested source: choices inside choices, conditional
+/// and sequence blocks, `{ }` inside `{ }`, parentheses, chains of unary operators.
+/// Every level costs stack in the parser and in all later passes, and the story
+/// nests its containers as the source nests (two levels of JSON per level of
+/// choices, three per conditional or sequence), of which the runtime loads a
+/// bounded number (see `MAX_STORY_JSON_DEPTH` in the emitter); deeper nesting is
+/// rejected where it is met, with its line. Counted in calls of the parser: a line
+/// of text inside two nested choices is at depth 4 (three statements and the text).
+pub(crate) const MAX_NESTING_DEPTH: usize = 32;
+
+thread_local! {
+    static NESTING_DEPTH: std::cell::Cell<usize> = const { std::cell::Cell::new(0) };
+}
+
+/// One level of nesting of the parser, left again when the guard is dropped.
+pub(crate) struct NestingGuard(());
+
+impl NestingGuard {
+    pub(crate) fn enter() -> Result<Self, CompilerError> {
+        NESTING_DEPTH.with(|depth| {
+            if depth.get() >= MAX_NESTING_DEPTH {
+                return Err(CompilerError::invalid_source(format!(
+                    "nesting too deep: more than {MAX_NESTING_DEPTH} levels of nested choices, blocks, braces or parentheses"
+                )));
+            }
+            depth.set(depth.get() + 1);
+            Ok(Self(()))
+        })
+    }
+}
+
+impl Drop for NestingGuard {
+    fn drop(&mut self) {
+        NESTING_DEPTH.with(|depth| depth.set(depth.get() - 1));
+    }
+}
+
 include!("types.rs");
 include!("story.rs");
 include!("lines.rs");
